@@ -390,6 +390,13 @@ func (x *Exec) frameEnv(f *Frame, st *State, header *ssa.BasicBlock) *Env {
 			maxID = id
 		}
 	}
+	if header != nil && f.loopIter != nil {
+		if id, ok := f.loopIter[header]; ok {
+			if _, live := st.iters[id]; live {
+				maxID = id
+			}
+		}
+	}
 	if it, ok := st.iters[maxID]; ok {
 		env.vars["$iter"] = it
 		env.vars["$iterid"] = maxID
@@ -448,6 +455,20 @@ func (x *Exec) loopHeader(f *Frame, st *State, b *ssa.BasicBlock, prev *ssa.Basi
 		f.regs[phi] = vals[j]
 	}
 	label := func(iv *Clause) string { return fmt.Sprintf("%s#%d:%s", lastName(fkey), k, iv.Label) }
+	if !isBack {
+		mx := 0
+		for id := range st.iters {
+			if id > mx {
+				mx = id
+			}
+		}
+		if mx > 0 {
+			if f.loopIter == nil {
+				f.loopIter = map[*ssa.BasicBlock]int{}
+			}
+			f.loopIter[b] = mx
+		}
+	}
 	env := x.frameEnv(f, st, b)
 	x.addTopLets(env)
 	// witness definitions (skolem functions of the contract) are available at loop heads too
@@ -630,7 +651,28 @@ func (x *Exec) loopHeader(f *Frame, st *State, b *ssa.BasicBlock, prev *ssa.Basi
 	}
 	// havoc iterator positions - only if this loop can advance an iterator created before it: its blocks call Next on an
 	// iterator or hand an iterator to a callee (an inner loop over a slice leaves the position of an enclosing store walk alone)
-	advances := false
+	advanced := map[*IterState]bool{}
+	advanceAll := false
+	markIter := func(v ssa.Value) {
+		if r, ok := f.regs[v]; ok {
+			if it := x.iterOf(st, r); it != nil {
+				advanced[it] = true
+				return
+			}
+		}
+		if r, ok := f.regs[v]; ok {
+			if ov, isOpaque := r.(*OpaqueVal); isOpaque && ov.Name == "iterator" {
+				return // an opaque iterator (undeclared prefix) is not one of the modelled walks
+			}
+			if iv, isI := r.(*IfaceVal); isI {
+				if ov, isOpaque := iv.Dyn.(*OpaqueVal); isOpaque && ov.Name == "iterator" {
+					return
+				}
+			}
+			advanceAll = true // an iterator-typed value we cannot resolve
+		}
+		// not in the registers: created inside the loop, fresh each iteration
+	}
 	for blk := range body {
 		for _, ins := range blk.Instrs {
 			ci, ok := ins.(ssa.CallInstruction)
@@ -639,18 +681,18 @@ func (x *Exec) loopHeader(f *Frame, st *State, b *ssa.BasicBlock, prev *ssa.Basi
 			}
 			cc := ci.Common()
 			if cc.IsInvoke() && cc.Method.Name() == "Next" && strings.Contains(types.TypeString(cc.Value.Type(), nil), "Iterator") {
-				advances = true
+				markIter(cc.Value)
 			}
 			for _, a := range cc.Args {
 				if strings.Contains(types.TypeString(a.Type(), nil), "Iterator") {
-					advances = true
+					markIter(a)
 				}
 			}
 		}
 	}
-	if advances {
-		for id, it := range st.iters {
-			_ = id
+	for id, it := range st.iters {
+		_ = id
+		if advanceAll || advanced[it] {
 			it.Idx = x.freshTerm("it_idx", SInt)
 			st.assume(And(Ge(it.Idx, IntLit(0)), Le(it.Idx, it.N)))
 		}
